@@ -159,6 +159,25 @@ def run(W, chk):
     dep_ok = PredTrue("deposit within tolerance", dep_test)
     no_effects(chk, W, "CUT-slippage-before-write", PM, ("ProvideLiquidity",), [dep_ok], " [deposit]", effects=pool_writes, extra=[multi, some, funded])
 
+    # ---------------- the caller's tolerances on the single-sided path: each leg is protected by the tolerance given for it
+    BUF = "Store(SINGLE_SIDE_LIQUIDITY_PROVISION_BUFFER).liquidity_provision_data."
+    legs = [e for e in P.calls(r"cosmwasm_std::wasm_execute$") if tagvals(e.extra["dargs"][1], "#v:mantra_dex_std::pool_manager::ExecuteMsg") == {"Swap"}]
+    for e in legs:
+        ms = vfield(vfield(e.extra["dargs"][1], "Swap"), "max_slippage")
+        chk.expect(exact_origins(ms) == {"msg.ProvideLiquidity.swap_max_slippage"} and not ops_of(ms), "AGREE-single-sided-tolerances", "swap leg",
+                   "swap leg max_slippage <- swap_max_slippage", "swap leg max_slippage <- %s" % sorted(all_origins(ms)), where(e))
+    for e in [x for x in P.writes() if x.extra.get("item") == "SINGLE_SIDE_LIQUIDITY_PROVISION_BUFFER" and x.extra.get("sop") == "save"]:
+        for f in ("swap_max_slippage", "liquidity_max_slippage"):
+            fo = vfield(vfield(e.extra.get("value", EMPTY), "liquidity_provision_data"), f)
+            chk.expect(exact_origins(fo) == {"msg.ProvideLiquidity." + f} and not ops_of(fo), "AGREE-single-sided-tolerances", "buffer." + f,
+                       "kept as given", "buffer.%s <- %s" % (f, sorted(all_origins(fo))), where(e))
+    RP = W.run(PM, "reply", None)
+    for e in RP.calls(r"cosmwasm_std::wasm_execute$"):
+        pl = vfield(e.extra["dargs"][1], "ProvideLiquidity")
+        for f in ("swap_max_slippage", "liquidity_max_slippage"):
+            fo = vfield(pl, f)
+            chk.expect(exact_origins(fo) == {BUF + f} and not ops_of(fo), "AGREE-single-sided-tolerances", "deposit leg." + f,
+                       "deposit leg %s <- the caller's %s" % (f, f), "deposit leg %s <- %s" % (f, sorted(all_origins(fo))), where(e))
     # ---------------- minimum_receive
     X = W.run(PM, "execute", ("ExecuteSwapOperations",), CutPolicy([], opaque=[sc.N.CS]))
     MR = "msg.ExecuteSwapOperations.minimum_receive"
